@@ -30,18 +30,46 @@ def coq_check(prop):
 
 
 # ---------------------------------------------------------------------------------------------
-# implementation side.  A tree is [name, {attr: int}, [children]].
+# implementation side.  A tree is [name, {attr: int | [int]}, [children]].
+#
+# Besides the trees themselves the harness looks at things a property-violating change could hide in
+# (leniency audit): the return value (must be None), parent/children link agreement of every node it
+# walks, the caller's path lists (must not be mutated), aliasing of mutable attribute values between
+# copied and original nodes.  An anomaly replaces the exception code by 90..93, which no model outcome
+# has, so it surfaces as a disagreement.
+
+A_RETURN, A_LINKS, A_ARGS, A_ALIAS = 90, 91, 92, 93
+
+_CLS = {}
+
+
+def _node_class(kind):
+    from bigtree.node.node import Node
+    if kind != "Sub":
+        return Node
+    if "Sub" not in _CLS:
+        class SubNode(Node):          # a user subclass: add_path_to_tree must build intermediates with root.__class__
+            kind = "sub"
+
+            def my_label(self):
+                return self.node_name
+        _CLS["Sub"] = SubNode
+    return _CLS["Sub"]
 
 
 def _build(Node, spec, sep, tags, parent=None):
     name, attrs, kids = spec
+    attrs = {k: (list(v) if isinstance(v, list) else v) for k, v in attrs.items()}
     if parent is None:
         n = Node(name, sep=sep, **attrs)
     else:
         n = Node(name, **attrs)
         n.parent = parent
-    tags[id(n)] = len(tags) - (1 if "_alive" in tags else 0)
+    tags[id(n)] = len(tags["_alive"]) if "_alive" in tags else 0
     tags.setdefault("_alive", []).append(n)      # a collected node's id() could be reused by a node the call creates
+    for v in attrs.values():
+        if isinstance(v, list):
+            tags.setdefault("_mutable", set()).add(id(v))
     for k in kids:
         _build(Node, k, sep, tags, n)
     return n
@@ -50,74 +78,120 @@ def _build(Node, spec, sep, tags, parent=None):
 _PRIVATE = ("name", "_sep", "_BaseNode__parent", "_BaseNode__children")
 
 
-def _observe(root, tags):
+def _observe(root, tags, anomalies):
     out = []
+    mutable = tags.get("_mutable", set())
 
-    def go(n, d):
-        at = sorted((k, v) for k, v in vars(n).items() if k not in _PRIVATE)
-        out.append([d, tags.get(id(n)), n.node_name, [[k, v] for k, v in at]])
+    def go(n, d, parent):
+        if parent is not None and n.parent is not parent:
+            anomalies.add(A_LINKS)
+        at = []
+        for k, v in sorted(vars(n).items()):
+            if k in _PRIVATE:
+                continue
+            if isinstance(v, list):
+                if tags.get(id(n)) is None and id(v) in mutable:
+                    anomalies.add(A_ALIAS)       # a node created by the call shares a mutable value with an old node
+                v = v[0] if len(v) == 1 else -1
+            at.append([k, v])
+        out.append([d, tags.get(id(n)), n.node_name, at])
         for c in n.children:
-            go(c, d + 1)
+            go(c, d + 1, n)
 
-    go(root, 1)
+    go(root, 1, None)
     return out
+
+
+def _paths_arg(kind, which, items):
+    """the container handed to the function: list (valid) / tuple / generator (must be refused)"""
+    if kind == "tuple" or (kind == "tuple_from" and which == "from") or (kind == "tuple_to" and which == "to"):
+        return tuple(items)
+    if kind == "gen" and which == "to":
+        return (x for x in items)
+    return list(items)
 
 
 def _call(mod, case, src, dst, frm, to):
     fl = dict(zip(FLAG_NAMES, case["flags"]))
     op = case["op"]
-    if op == "shift":
-        mod.shift_nodes(src, frm, to, sep=case["sep"], **fl)
-    elif op == "copy":
-        mod.copy_nodes(src, frm, to, sep=case["sep"], **fl)
-    elif op == "shift_replace":
-        mod.shift_and_replace_nodes(src, frm, to, sep=case["sep"], skippable=fl["skippable"],
-                                    delete_children=fl["delete_children"], with_full_path=fl["with_full_path"])
-    elif op == "tt_copy":
-        mod.copy_nodes_from_tree_to_tree(src, dst, frm, to, sep=case["sep"], **fl)
-    elif op == "tt_replace":
-        mod.copy_and_replace_nodes_from_tree_to_tree(src, dst, frm, to, sep=case["sep"], skippable=fl["skippable"],
-                                                     delete_children=fl["delete_children"],
-                                                     with_full_path=fl["with_full_path"])
+    kw = {"sep": case["sep"]}
+    if op in ("shift", "copy", "tt_copy"):
+        kw.update(fl)
     else:
-        raise ValueError(op)
+        kw.update(skippable=fl["skippable"], delete_children=fl["delete_children"], with_full_path=fl["with_full_path"])
+    if case.get("omit"):
+        # rely on the documented defaults (sep="/", every flag False) instead of passing them
+        kw = {k: v for k, v in kw.items() if not (v is False or (k == "sep" and v == "/"))}
+    if op == "shift":
+        return mod.shift_nodes(src, frm, to, **kw)
+    if op == "copy":
+        return mod.copy_nodes(src, frm, to, **kw)
+    if op == "shift_replace":
+        return mod.shift_and_replace_nodes(src, frm, to, **kw)
+    if op == "tt_copy":
+        return mod.copy_nodes_from_tree_to_tree(src, dst, frm, to, **kw)
+    if op == "tt_replace":
+        return mod.copy_and_replace_nodes_from_tree_to_tree(src, dst, frm, to, **kw)
+    raise ValueError(op)
 
 
 def _fresh(case):
-    from bigtree.node.node import Node
+    Node = _node_class(case.get("cls", "Node"))
     tags = {}
     src = _build(Node, case["tree"], case["tsep"], tags)
+    n1 = len(tags["_alive"])
     dst = None
     if case["op"].startswith("tt_"):
         dst = _build(Node, case["tree2"], case["tsep2"], tags)
-    return src, dst, tags
+    # the node object handed to the function as `tree` / `to_tree` (not necessarily the root)
+    arg_src = tags["_alive"][case.get("start", 0)] if case.get("start", 0) < n1 else src
+    arg_dst = None
+    if dst is not None:
+        k = n1 + case.get("start2", 0)
+        arg_dst = tags["_alive"][k] if k < len(tags["_alive"]) else dst
+    return src, dst, tags, arg_src, arg_dst
 
 
-def _snapshot(code, src, dst, tags):
-    return {"code": code, "src": _observe(src, tags), "dst": _observe(dst, tags) if dst is not None else []}
+def _one_call(mod, case, arg_src, arg_dst, frm, to, anomalies):
+    a_from = _paths_arg(case.get("ptype", "list"), "from", frm)
+    a_to = _paths_arg(case.get("ptype", "list"), "to", to)
+    keep_from = list(a_from) if isinstance(a_from, (list, tuple)) else None
+    keep_to = list(a_to) if isinstance(a_to, (list, tuple)) else None
+    code = 0
+    try:
+        r = _call(mod, case, arg_src, arg_dst, a_from, a_to)
+        if r is not None:
+            anomalies.add(A_RETURN)
+    except Exception as e:  # noqa
+        code = exn_code(e)
+    if (keep_from is not None and list(a_from) != keep_from) or (keep_to is not None and list(a_to) != keep_to):
+        anomalies.add(A_ARGS)
+    return code
+
+
+def _snapshot(code, src, dst, tags, anomalies):
+    s = _observe(src, tags, anomalies)
+    d = _observe(dst, tags, anomalies) if dst is not None else []
+    return {"code": min(anomalies) if anomalies else code, "src": s, "dst": d}
 
 
 def run_impl(prop, case):
     import logging
     logging.disable(logging.CRITICAL)
     from bigtree.tree import modify as mod
-    src, dst, tags = _fresh(case)
-    code = 0
-    try:
-        _call(mod, case, src, dst, list(case["from"]), list(case["to"]))
-    except Exception as e:  # noqa
-        code = exn_code(e)
-    obs = {"multi": _snapshot(code, src, dst, tags), "seq": None}
-    if len(case["from"]) >= 2 and len(case["from"]) == len(case["to"]):
-        src, dst, tags = _fresh(case)
+    src, dst, tags, a_src, a_dst = _fresh(case)
+    anomalies = set()
+    code = _one_call(mod, case, a_src, a_dst, case["from"], case["to"], anomalies)
+    obs = {"multi": _snapshot(code, src, dst, tags, anomalies), "seq": None}
+    if len(case["from"]) >= 2 and len(case["from"]) == len(case["to"]) and case.get("ptype", "list") == "list":
+        src, dst, tags, a_src, a_dst = _fresh(case)
+        anomalies = set()
         code = 0
         for f, t in zip(case["from"], case["to"]):
-            try:
-                _call(mod, case, src, dst, [f], [t])
-            except Exception as e:  # noqa
-                code = exn_code(e)
+            code = _one_call(mod, case, a_src, a_dst, [f], [t], anomalies)
+            if code:
                 break
-        obs["seq"] = _snapshot(code, src, dst, tags)
+        obs["seq"] = _snapshot(code, src, dst, tags, anomalies)
     return obs
 
 
@@ -126,7 +200,9 @@ def run_impl(prop, case):
 
 
 def _cattrs(attrs):
-    return clist(cpair(cstr(k), f"VInt {cZ(int(v))}") for k, v in attrs)
+    def val(v):
+        return v[0] if isinstance(v, list) else v
+    return clist(cpair(cstr(k), f"VInt {cZ(int(val(v)))}") for k, v in attrs)
 
 
 def _ctree(spec, counter):
@@ -159,7 +235,7 @@ def emit(prop, case, obs):
           f"({dst}) ({cstr(dsep)}) ({clist(cstr(s) for s in case['from'])}) "
           f"({clist(copt(t, cstr) for t in case['to'])})")
     seq = "None" if obs["seq"] is None else f"(Some ({_cobs(obs['seq'])}))"
-    return f"MC ({mi}) ({_cobs(obs['multi'])}) {seq}"
+    return f"MC ({mi}) ({_cobs(obs['multi'])}) {seq} {cbool(case.get('ptype', 'list') == 'list')}"
 
 
 # ---------------------------------------------------------------------------------------------
@@ -169,6 +245,9 @@ NAME_POOLS = {
     "distinct": ["b", "c", "d", "e", "f", "g", "h", "i", "j", "k", "l", "m"],
     "repeated": ["b", "c", "b", "d", "c", "b", "d", "c", "b", "d", "c", "b"],
     "affix": ["a", "xa", "ab", "b", "bc", "a", "abc", "b", "c", "xa", "ca", "bb"],
+    # names with characters that are separators elsewhere, blanks, digits, non-ASCII (the predicate is lenient when a
+    # name contains a separator in play; the model is still compared)
+    "special": ["a.b", "c-d", "e f", "g1", "\u00fc", "a", "x|y", "b", "1", "a.b", "c", "d_e"],
 }
 SEPS = ["/", "\\", "-", ".", "|"]
 SHAPES = ["wide", "deep", "mixed", "path", "star", "hub"]
@@ -204,6 +283,8 @@ def gen_tree(rng, pool, shape, nmax, root_name="r"):
         if d >= 7:
             continue
         attrs = {"v": rng.randint(0, 9)} if rng.random() < 0.4 else {}
+        if rng.random() < 0.15:
+            attrs["m"] = [rng.randint(0, 9)]          # a mutable value: copies must not share it
         kid = [nm, attrs, []]
         par[2].append(kid)
         nodes.append((kid, d + 1))
@@ -342,14 +423,14 @@ def gen_case(rng, flags_idx=None, op=None):
     stratum = rng.choice(list(NAME_POOLS))
     pool = NAME_POOLS[stratum]
     shape = rng.choice(SHAPES + ["hub", "hub"])
-    tree = gen_tree(rng, pool, shape, 9)
+    tree = gen_tree(rng, pool, shape, 9, root_name=(rng.choice(pool) if rng.random() < 0.1 else "r"))
     tsep = "/" if rng.random() < 0.6 else rng.choice(SEPS)
     sep = tsep if rng.random() < 0.6 else rng.choice(SEPS)
     tt = op.startswith("tt_")
     tree2, tsep2 = None, tsep
     if tt:
-        tree2 = gen_tree(rng, pool, rng.choice(SHAPES), 7, root_name=rng.choice(["r", "s"]))
-        tsep2 = tsep if rng.random() < 0.6 else rng.choice(SEPS)
+        tree2 = gen_tree(rng, pool, rng.choice(SHAPES), 7, root_name=rng.choice(["r", "s", tree[0]]))
+        tsep2 = tsep if rng.random() < 0.5 else rng.choice(SEPS)     # from_tree.sep != to_tree.sep stays frequent
     flags = light_flags(rng) if flags_idx is None else flag_combo(flags_idx)
     paths = tree_paths(tree)
     paths2 = tree_paths(tree2) if tt else paths
@@ -363,8 +444,25 @@ def gen_case(rng, flags_idx=None, op=None):
         last_to = landed
     if rng.random() < 0.015:
         to = to[:-1] if len(to) > 1 else to + [to[0]]     # lengths differ
-    return {"op": op, "flags": flags, "sep": sep, "tree": tree, "tsep": tsep, "tree2": tree2, "tsep2": tsep2,
+    if rng.random() < 0.008:
+        frm, to = [], []                                  # nothing to do
+    case = {"op": op, "flags": flags, "sep": sep, "tree": tree, "tsep": tsep, "tree2": tree2, "tsep2": tsep2,
             "from": frm, "to": to, "stratum": f"{op}/{stratum}/{shape}/{len(frm)}p"}
+    # -- how the call is made (leniency audit): defaults relied upon, container types, node class, start node
+    case["omit"] = rng.random() < 0.5
+    r = rng.random()
+    case["ptype"] = "list" if r > 0.03 else rng.choice(["tuple", "tuple_from", "tuple_to", "gen"])
+    case["cls"] = "Sub" if rng.random() < 0.3 else "Node"
+    case["start"], case["start2"] = 0, 0
+    if flags[5] and len(frm) == 1 and rng.random() < 0.5:
+        # with_full_path, one pair: every look-up goes through tree.root, so any node of the tree may be handed over
+        # (with several pairs an earlier pair may detach the handed-over node, which then is a root of its own)
+        case["start"] = rng.randrange(len(paths))
+        if tt:
+            case["start2"] = rng.randrange(len(paths2))
+    if case["ptype"] != "list":
+        case["stratum"] = op + "/non-list-argument"
+    return case
 
 
 def _known_ids():
@@ -491,6 +589,13 @@ def shrink_candidates(prop, case):
         if b:
             c = dict(case)
             c["flags"] = case["flags"][:i] + [False] + case["flags"][i + 1:]
+            if i == 5:
+                c["start"], c["start2"] = 0, 0       # a non-root start node is only meaningful with full paths
+            yield c
+    for key, dflt in (("start", 0), ("start2", 0), ("omit", False), ("cls", "Node")):
+        if case.get(key, dflt) != dflt:
+            c = dict(case)
+            c[key] = dflt
             yield c
     for t in _prune(case["tree"]):
         c = dict(case)
@@ -545,11 +650,19 @@ def sample(prop, case, obs):
 
 def rule(prop):
     return ("random trees (3-9 nodes; shapes wide/deep/mixed/path/star/hub; names distinct / repeated across branches / "
-            "suffix-related a,xa,ab,b,bc) x the five public functions x 1-3 (from,to) pairs (full and partial from-paths, "
-            "new / existing / same / nested / deleted destinations, a few malformed ones) x all 64 flag combinations "
-            "(round-robin in quick, full product per scenario in thorough) x separators / \\ - . | for `sep` and the tree; "
-            "every multi-pair case is also run one pair per call on an identical tree; non-trivial = tree with >= 3 nodes "
-            "and the call changed the destination tree; distinct by canonical JSON hash")
+            "suffix-related a,xa,ab,b,bc / special characters; root name sometimes repeated below; int and mutable list "
+            "attributes) x the five public functions x 0-3 (from,to) pairs (full and partial from-paths, "
+            "new / existing / same / nested / deleted destinations, None and '' to-paths, a few malformed ones) x all 64 "
+            "flag combinations (round-robin in quick, full product per scenario in thorough) x separators / \\ - . | for "
+            "`sep`, tree.sep and to_tree.sep independently (from_tree.sep != to_tree.sep in about half of the tree-to-tree "
+            "cases); half of the calls rely on the documented defaults instead of passing sep='/' / False flags; 3 % hand "
+            "over a tuple or generator (must be refused with ValueError, nothing changed); 30 % use a Node subclass; with "
+            "with_full_path and one pair a non-root node of the tree is handed over as `tree` / `to_tree`; every multi-pair "
+            "case is also run one pair per call on an identical tree.  Observed: exception class, pre-order "
+            "(depth, object tag, name, attributes) of the tree object(s), plus anomalies = return value not None, "
+            "parent/children link disagreement, caller's path lists mutated, a created node sharing a mutable attribute "
+            "value with an old node.  Non-trivial = tree with >= 3 nodes and the call changed the destination tree; "
+            "distinct by canonical JSON hash")
 
 
 def partial_clauses(prop):
@@ -571,6 +684,17 @@ def partial_clauses(prop):
         "occurring in the names; C08_multi_is_sequence and C08_tree_to_tree_source_untouched are whole-call theorems "
         "for all inputs; partial from-paths (find_path), leading/trailing separators and differing sep / tree.sep are "
         "tied to the code by the correspondence only",
+        "accepted blind spots of the correspondence (leniency audit): (a) F_SKIP domains, where neither model nor "
+        "predicate constrain the outcome: merge_leaves without copy into the source subtree (lazy generator), a call that "
+        "re-parents the tree object itself (root shifted with delete_children below itself), empty separators; (b) prop_C08 "
+        "is lenient (model still compared exactly) for malformed path strings, names containing a separator in play, "
+        "partial from-paths matching only a suffix of a name, the root as shift source, destinations inside the source "
+        "subtree, sibling-name clashes midway, replacing the root, deletion combined with a merge flag; (c) not observed: "
+        "nodes detached by the call (overridden / deleted subtrees) and their links, the class of nodes the call creates, "
+        "tree.sep after the call, attribute insertion order, exception messages, logging; (d) never exercised: "
+        "BaseNode/BinaryNode trees, the exported helpers copy_or_shift_logic / replace_logic called directly (e.g. "
+        "copy=False with to_tree), to_tree being the same object as tree, a non-root start node with partial from-paths "
+        "or with several pairs, non-string path entries, positional flag arguments, trees above 9 nodes / depth 7",
         "known finding K3-C08: with a multi-character `sep` the argument normalisation `path.rstrip(sep)` strips a character "
         "set, so a valid pair whose last name ends in a character of sep fails (NotFoundError)",
     ]
